@@ -273,6 +273,9 @@ def main(argv):
     a = ap.parse_args(argv)
     seed = int(os.environ.get("VERIF_SEED", "1"))
     tier = a.tier if a.tier in ("quick", "thorough") else "quick"
+    # watchdog: a check that runs away is an internal error, never a verdict
+    import faulthandler
+    faulthandler.dump_traceback_later(int(os.environ.get("VERIF_BUDGET", "2700" if tier == "quick" else "21600")), exit=True)
     if a.pid not in props.PROPS:
         log("unknown property", a.pid)
         return 2
